@@ -178,6 +178,8 @@ def plan_program(spec, plan_path):
             body.append(["step", dict(item[1])])
         elif kind == "pause":
             body.append(["sleep", 1])
+        elif kind == "chaos":
+            body.append(item[1])
     if plan_path == "plan.py":
         # Every source has exactly one declaration: the root plan declares all sources that any
         # active step uses (initially, dynamically or through a glob).
@@ -779,4 +781,123 @@ def rich_histories(draw, max_steps=6, min_builds=1, max_builds=3):
                 targets += draw(st.lists(st.sampled_from(list(OUT_DIRS) + ["sub/"]),
                                          min_size=1, max_size=2))
             build["targets"] = sorted(set(targets))
+    return hist
+
+
+# ---------------------------------------------------------------------------------------------
+# Chaos: declarations drawn from a small universe of paths, most of them conflicting with
+# something. They are requests as a client may send them (C08, C09, C15).
+
+CHAOS_SOURCES = {"cf/a.txt": "chaos a\n", "cf/b.txt": "chaos b\n", "cf/deep/c.txt": "chaos c\n"}
+CHAOS_DIRS = ["cf/", "cf/deep/", "data/", "out/", "cx/"]
+CHAOS_OUTS = ["cx/o1.out", "cx/o2.out", "cx/deep/o3.out", "out/shared.out", "cf/gen.out"]
+# (no directory names here: the client rejects a directory given as a file, see
+# api._check_no_directories and the classification in static())
+CHAOS_SPECIAL = [".stepup/x.txt", "plan.py", "cf/nonexistent.txt"]
+CHAOS_PATTERNS = ["cf/*.txt", "cf/**", "out/*", "c?/*", "cf/${*n}.txt", "cx/*.out", "*/", "cf/*/",
+                  "**/*.out"]
+CHAOS_CMDS = ["./ca.py", "./cb.py", "./cc.py"]
+
+
+def _chaos_paths(draw, pool, lo, hi):
+    # the client sends sets of paths: no duplicates within one argument
+    return draw(st.lists(st.sampled_from(pool), min_size=lo, max_size=hi, unique=True))
+
+
+@st.composite
+def chaos_ops(draw, spec, in_step=False):
+    """One request (wrapped in try with probability 3/4)."""
+    srcs = sorted(set(spec["sources"]) | set(CHAOS_SOURCES))
+    outs = sorted(declared_outputs(spec)) or ["out/none.out"]
+    anyfile = srcs + outs + CHAOS_OUTS + CHAOS_SPECIAL
+    kinds = ["static", "static", "tree", "step", "step", "step", "glob", "amend", "release", "hold",
+             "cycle"]
+    if in_step:
+        kinds = ["amend", "amend", "static", "glob"]
+    kind = draw(st.sampled_from(kinds))
+    if kind == "static":
+        op = ["static_raw", [], _chaos_paths(draw, anyfile, 1, 2), []]
+        if draw(st.integers(0, 3)) == 0:
+            op[3] = [draw(st.sampled_from(CHAOS_PATTERNS))]
+    elif kind == "tree":
+        op = ["static_raw", _chaos_paths(draw, CHAOS_DIRS + ["./", "/"], 1, 2),
+              _chaos_paths(draw, anyfile, 0, 1), []]
+    elif kind == "step":
+        existing = [step_label(sd)[1] for sd in spec["steps"].values()]
+        cmd = draw(st.sampled_from(CHAOS_CMDS + CHAOS_CMDS + existing[:2]))
+        stepspec = {"cmd": cmd,
+                    "inp": _chaos_paths(draw, anyfile, 0, 2),
+                    "out": _chaos_paths(draw, CHAOS_OUTS + CHAOS_OUTS + outs + srcs, 0, 2),
+                    "vol": _chaos_paths(draw, CHAOS_OUTS + outs, 0, 1),
+                    "env": draw(st.sampled_from([[], [], ["VERIF_A"], ["HERE"], ["VERIF_A",
+                                                                                  "VERIF_B"]])),
+                    "workdir": draw(st.sampled_from([".", ".", "sub", "cf", "cx"])),
+                    "need": "optional"}
+        extra = draw(st.integers(0, 9))
+        if extra == 0:
+            stepspec["env_overrides"] = {"VERIF_A": "1"}
+        elif extra == 1:
+            # (quantities <= 0 are rejected by step() itself)
+            stepspec["resources"] = {draw(st.sampled_from(["gpu", "", "lic"])):
+                                     draw(st.sampled_from([1, 2]))}
+        op = ["step", stepspec]
+    elif kind == "cycle":
+        # two (or three) steps whose inputs and outputs close a loop; the last one must be refused
+        n = draw(st.integers(1, 3))
+        ring = draw(st.permutations(CHAOS_OUTS))[:n]
+        ops = []
+        for j in range(n):
+            stepspec = {"cmd": CHAOS_CMDS[j], "inp": [ring[j]], "out": [ring[(j + 1) % n]],
+                        "vol": [], "env": [], "workdir": ".", "need": "optional"}
+            if draw(st.integers(0, 3)) == 0 and j == n - 1:
+                # close the loop with amend instead: only possible for the running plan itself
+                ops.append(["try", ["amend", {"inp": [ring[j]], "out": [], "vol": []}]])
+            else:
+                ops.append(["try", ["step", stepspec]])
+        op = ["seq", *ops]
+    elif kind == "glob":
+        subs = {"n": draw(st.sampled_from(["*", "[ab]", "?"]))} \
+            if draw(st.booleans()) else {}
+        pattern = draw(st.sampled_from(CHAOS_PATTERNS))
+        if "${*n}" not in pattern:
+            subs = {}
+        op = ["glob", pattern, subs]
+    elif kind == "amend":
+        op = ["amend", {"inp": _chaos_paths(draw, anyfile, 0, 2),
+                        "out": _chaos_paths(draw, CHAOS_OUTS + outs + srcs, 0, 1),
+                        "vol": _chaos_paths(draw, CHAOS_OUTS + outs, 0, 1)}]
+    else:
+        op = [kind]
+    if draw(st.integers(0, 3)) != 0:
+        op = ["try", op]
+    return op
+
+
+def add_chaos(draw, spec, nmax=4):
+    """Insert 1..nmax chaos requests at drawn positions of drawn plans (in place)."""
+    spec["sources"].update({p: c for p, c in CHAOS_SOURCES.items() if p not in spec["sources"]})
+    plans = sorted(active_plans(spec))
+    descs = []
+    for _ in range(draw(st.integers(1, nmax))):
+        plan = spec["plans"][draw(st.sampled_from(plans))]
+        op = draw(chaos_ops(spec))
+        pos = draw(st.integers(0, len(plan["items"])))
+        plan["items"].insert(pos, ["chaos", op])
+        descs.append(op)
+    return descs
+
+
+def strip_chaos(spec):
+    for plan in spec["plans"].values():
+        plan["items"] = [it for it in plan["items"] if it[0] != "chaos"]
+
+
+@st.composite
+def chaos_histories(draw, max_steps=5, min_builds=1, max_builds=3, nmax=4):
+    hist = draw(rich_histories(max_steps=max_steps, min_builds=min_builds,
+                               max_builds=max_builds))
+    for stage in hist["stages"]:
+        strip_chaos(stage["spec"])
+        if draw(st.integers(0, 4)) != 0:
+            stage["chaos"] = add_chaos(draw, stage["spec"], nmax)
     return hist
